@@ -13,7 +13,7 @@ META = dict(
     shards={"quick": 10, "thorough": 16},
     watchdog_s={"quick": 1500, "thorough": 5400},
     evaluations_counter="cases",
-    min={"histories": 200, "freeze_steps": 200, "second_freeze_steps": 80, "deepcopy_steps": 60, "move_steps": 60, "other_copy_steps": 100, "inference_mode_forwards": 60,
+    min={"histories": 200, "freeze_steps": 200, "second_freeze_steps": 80, "deepcopy_steps": 40, "requires_grad_false_steps": 30, "move_steps": 60, "other_copy_steps": 100, "inference_mode_forwards": 60,
          "compaction_checks": 200, "transitions_checked": 1000},
     anchors=["quantize.py:freeze",
              "nn/qmodule.py:QModuleMixin.freeze",
@@ -38,7 +38,8 @@ WQ = ["qint8", "qfloat8", "qfloat8_e4m3fn", "qfloat8_e5m2", "qint4", "qint2"]
 AQ = [None, None, "qint8", "qfloat8"]
 STEPS = ["forward", "calibrate", "calibrate_grad", "freeze", "freeze", "to_cpu", "cpu", "deepcopy", "forward_inference_mode",
          "to_device_obj",
-         "to_non_blocking", "copy", "pickle", "torch_save_module", "apply_clone", "reload_own_state", "to_channels_last"]
+         "to_non_blocking", "copy", "pickle", "torch_save_module", "apply_clone", "reload_own_state", "to_channels_last",
+         "requires_grad_false", "requires_grad_false", "eval_mode"]
 
 
 def compaction(ctx, model, wq, sig0, desc):
@@ -175,6 +176,12 @@ def run(ctx):
                 elif step == "deepcopy":
                     model = copy.deepcopy(model)
                     ctx.count("deepcopy_steps")
+                elif step == "requires_grad_false":
+                    # inference pipelines switch gradients off before (or after) freezing: a flag, not a value
+                    model.requires_grad_(False)
+                    ctx.count("requires_grad_false_steps")
+                elif step == "eval_mode":
+                    model.eval()
                 elif step == "to_channels_last":
                     # a memory-format move: values (and therefore outputs on the same inputs) must not change
                     model = model.to(memory_format=torch.channels_last)
